@@ -48,6 +48,8 @@ def run(ctx, res):
         raise AnalysisBroken("no wait site in channel_write_map")
     for site in sites:
         LR.rule_l_recheck(la, res, site)
+        LR.rule_l_recheck_nested(la, res, site)
+        site = dict(site, reads=LR.full_reads(site))
         if site["loop"]:
             LR.rule_l_cv(la, res, site)
             LR.rule_l_notify(la, res, prog.func("channel_accept_writes"), site["cv"], site["reads"])
@@ -70,4 +72,6 @@ def run(ctx, res):
     res.require_min("R-STOP-SEQ", 5)
     res.require_min("R-THREAD-EXIT", 9)
     res.require_min("R-START-RESET", 6)
+    res.guard(RR.rule_stop_chain, prog, res)
+    res.require_min("R-STOP-CHAIN", 2)
     res.require_min("L-CV", 12)
